@@ -2,6 +2,7 @@
 except through the correcting functions."""
 import ast
 
+from .match import FnText
 from ..model import AnalysisError, norm, walk_no_nested
 from ..cfg import build_cfg, node_exprs
 from ..flow import forward_taint, taint_by_flag
@@ -199,15 +200,15 @@ def manager_contract(ctx, rule='A5a'):
             if fn is None:
                 raise AnalysisError(f'{cname}.{m} vanished')
             ctx.touch(fn)
-            src = ' '.join(norm(s) for s in fn.body)
-            direct = '_correct_is_active(imputed_vector)' in src and '_encoder.get_matrix(vector, existence=existence)' in src
+            src = FnText(ctx, fn)
+            direct = 'self._correct_is_active(imputed_vector)' in src and 'self._encoder.get_matrix(vector, existence=existence)' in src
             via = 'self.get_matrix(vector, existence=existence)' in src
             n += 1
             ctx.ob(rule, fkey(fn, rule, 'vector-and-activeness-from-marks'), direct or via, fn.where,
                    'the corrected vector and its activeness come from _correct_is_active applied to the encoder '
                    'output (directly, or through get_matrix of the same manager)', src[:120])
     fn = ctx.fn(f'{AMGR}:AssignmentManagerBase._correct_is_active')
-    src = ' '.join(norm(s) for s in fn.body)
+    src = FnText(ctx, fn)
     ok = 'is_active = corrected_vector != X_INACTIVE_VALUE' in src and \
         'corrected_vector[corrected_vector == X_INACTIVE_VALUE] = 0' in src and \
         src.index('is_active =') < src.index('] = 0')
